@@ -512,7 +512,14 @@ impl<'a> Layout<'a> {
             ConstValue::Int(i) => {
                 if self.wild && i.0 >= 0 && self.rng.chance(1, 4) {
                     self.hit("int.hex");
-                    out.push_str(&format!("0x{:x}", i.0))
+                    if self.rng.chance(1, 2) {
+                        out.push_str(&format!("0x{:x}", i.0))
+                    } else {
+                        out.push_str(&format!("0x{:X}", i.0))
+                    }
+                } else if self.wild && i.0 < 0 && i.0 != i64::MIN && self.rng.chance(1, 3) {
+                    self.hit("int.neg_hex");
+                    out.push_str(&format!("-0x{:x}", -i.0))
                 } else {
                     out.push_str(&format!("{}", i.0))
                 }
